@@ -1718,4 +1718,4 @@ Example C10_corrupt_hyp_sat :
   replay_file (set_nth 29 RtFirst (encode_log ex_log3)) = ([canon ex_small], Damaged) /\
   (* the instrumented reader lists every accepted record of the intact log *)
   snd (replay_file_i (encode_log ex_log3)) = [(69, 16); (46, 16); (23, 16)]%nat.
-Proof. vm_compute. repeat split. Qed.
+Proof. vm_compute. repeat split. Show. Qed.
